@@ -12,6 +12,7 @@ Spec/Regs.lean), and (d) that nothing else changes (the final file is `c` with o
 -/
 import X86Model.Proofs.Regs
 import X86Model.Proofs.TrapBits
+import X86Model.Spec.AsmOptions
 
 namespace X86.C16
 open X86 X86.Spec X86.Consts X86.Regs
@@ -802,5 +803,21 @@ example : canonical 0xffff800000001000#64 = true ∧ canonical 0x000080000000000
 -- ApicBase on a concrete prior state (base FEE0_0000h, BSP, enabled): the new base replaces the old one
 example : ((do ApicBase.write 0x1000#64 0x800#64; ApicBase.read : M (BitVec 64 × BitVec 64)) cEx).res
     = .ok (0x1000#64, 0x800#64) := by decide
+
+/-! ### The `asm!` blocks behind this property (re-extracted from the source on every run)
+
+`Generated.asmSites` is rewritten by `translator/gen_asm.py` from the `asm!` invocations of the
+crate; the theorems below are re-checked by the kernel against what the source says now. They
+constrain what the compiler may do with the blocks (delete, merge, hoist, reorder memory accesses
+across them) — behaviour that only shows in particular build profiles. -/
+
+/-- Every `asm!` block of the files this property is anchored in carries only options its
+instructions admit (`Spec/AsmOptions.lean`): no `pure` on instructions with side effects, no
+`nomem`/`readonly` where the hardware dereferences the operand, no `nostack` on pushes/pops. -/
+theorem asm_options_admissible :
+    ∀ s ∈ Spec.AsmOptions.sitesOfFiles ["src/registers/control.rs", "src/registers/debug.rs", "src/registers/model_specific.rs", "src/registers/xcontrol.rs", "src/registers/rflags.rs", "src/registers/mxcsr.rs", "src/instructions/segmentation.rs", "src/instructions/tables.rs"], Spec.AsmOptions.admissible s = true := by
+  decide +kernel
+
+example : (Spec.AsmOptions.sitesOfFiles ["src/registers/control.rs", "src/registers/debug.rs", "src/registers/model_specific.rs", "src/registers/xcontrol.rs", "src/registers/rflags.rs", "src/registers/mxcsr.rs", "src/instructions/segmentation.rs", "src/instructions/tables.rs"]).length > 0 := by decide +kernel
 
 end X86.C16
